@@ -17,7 +17,7 @@ from harness.lib import common
 PROP = 'C13'
 PROP_FILE = 'Props/C13.v'
 THEOREMS = ['C13_each_item_each_task_at_most_once', 'C13_tasks_in_order', 'C13_only_source_items',
-            'C13_stop_takes_no_more', 'C13_no_bad_stuck', 'C13_exactly_once_without_stop',
+            'C13_stop_takes_no_more', 'C13_no_fetch_after_stop', 'C13_no_bad_stuck', 'C13_exactly_once_without_stop',
             'C13_returns_when_source_exhausted', 'C13_source_error_surfaces',
             'C13_every_execution_finite']
 TRUSTED = [
